@@ -763,7 +763,7 @@ where
         let reference_picture_resampling = if options
             .contains(PictureOption::REFERENCE_PICTURE_RESAMPLING)
             || previous_picture
-                .map(|p| p.format != format)
+                .map(|p| matches!((&p.format, &format), (Some(old), Some(new)) if old != new))
                 .unwrap_or(false)
         {
             decode_rprp(reader)?
